@@ -771,17 +771,27 @@ tx_outs:\n{tx_outs}
         else:
             return schnorr
 
-    def check_sig_legacy(self, input_index, point, signature, redeem_script=None):
+    def check_sig_legacy(
+        self, input_index, point, signature, redeem_script=None, hash_type=SIGHASH_ALL
+    ):
         # get the sig_hash (z)
-        z = self.sig_hash_legacy(input_index, redeem_script)
+        z = self.sig_hash_legacy(input_index, redeem_script, hash_type=hash_type)
         # return whether the signature verifies
         return point.verify(z, signature)
 
     def check_sig_segwit(
-        self, input_index, point, signature, redeem_script=None, witness_script=None
+        self,
+        input_index,
+        point,
+        signature,
+        redeem_script=None,
+        witness_script=None,
+        hash_type=SIGHASH_ALL,
     ):
         # get the sig_hash (z)
-        z = self.sig_hash_bip143(input_index, redeem_script, witness_script)
+        z = self.sig_hash_bip143(
+            input_index, redeem_script, witness_script, hash_type=hash_type
+        )
         # return whether the signature verifies
         return point.verify(z, signature)
 
